@@ -6,6 +6,7 @@ CONSTANTS
   MaxStat = 1000
   DefaultLimit = 100
   MaxEnum = 10000
+  Deviations = {}
   MaxWireLimit = 9
 INVARIANT TTypeOK
 POSTCONDITION TraceAccepted
